@@ -166,3 +166,29 @@ Proof.
   intros H1 H2. apply andb_true_iff in H1 as [H1 _]. apply andb_true_iff in H2 as [H2 _].
   rewrite (punct_not_alpha x H2) in H1. discriminate.
 Qed.
+
+(** * what [builds_same] accepts *)
+Lemma same_create_sound a b : same_create a b = true ->
+  (a = L [I 1%Z] /\ b = L [I 1%Z])
+  \/ exists i0 f0 i f, a = L [I 0%Z; i0; I f0] /\ b = L [I 0%Z; i; I f]
+       /\ same_dict (v_items i0) (v_items i) = true /\ f0 = f.
+Proof.
+  unfold same_create. intros H.
+  repeat match type of H with
+         | context [match ?x with _ => _ end] => destruct x; try discriminate
+         end;
+  first [left; split; reflexivity
+        |right; apply andb_true_iff in H as [H1 H2]; apply Z.eqb_eq in H2; subst;
+         do 4 eexists; repeat split; eassumption].
+Qed.
+
+Lemma builds_same_sound_l c0 rest others :
+  builds_same (L (L (c0 :: rest) :: others)) = true ->
+  forall c, In c rest ->
+    (c0 = L [I 1%Z] /\ c = L [I 1%Z])
+    \/ exists i0 f0 i f, c0 = L [I 0%Z; i0; I f0] /\ c = L [I 0%Z; i; I f]
+         /\ same_dict (v_items i0) (v_items i) = true /\ f0 = f.
+Proof.
+  intros H c Hc. unfold builds_same in H. cbn [v_nth nth] in H. rewrite forallb_forall in H.
+  exact (same_create_sound c0 c (H c Hc)).
+Qed.
